@@ -873,6 +873,11 @@ class Job:
                     )
                 else:
                     raise error
+            if not self._statepoint_requires_init:
+                # Shallow copies keep the old state point object: this handle
+                # must no longer follow (or lead) their id changes.
+                jobs = self._statepoint._jobs
+                jobs[:] = [job for job in jobs if job is not self]
             self.__dict__.update(dst.__dict__)
 
             # Update the destination project's state point cache
